@@ -382,8 +382,7 @@ Definition is_plain (b : block) : bool :=
   negb (b_distinct b) && (match b_order b with [] => true | _ => false end)
   && (match b_limit b with None => true | _ => false end).
 Definition restart (cs : list string) (k : opk) : df := mkDf [] (pass_block cs) k.
-Definition row_num : string := "row_num"%string.
-Definition dropdup_test : expr := EBin Eq (ECol row_num) (ELit (VInt 1)).
+Definition dropdup_test (row_num : string) : expr := EBin Eq (ECol row_num) (ELit (VInt 1)).
 
 Section ModelY.
   Variable c : cfg.
@@ -427,10 +426,11 @@ Section ModelY.
                    where(row_num = 1); drop(row_num) *)
                 let all := cur_cols d1 in
                 let d2 := pre_wrap c (OSelect []) (pre_init c d1) in
-                if is_plain (cur d2) && negb (mem row_num all) then
+                let row_num := fresh_name "row_num" all in      (* a helper name that is not a current column *)
+                if is_plain (cur d2) then
                   let names := all ++ [row_num] in
                   let dr := restart names (new_kind c (OSelect []) (last d1)) in
-                  let d4 := step c dr (OWhere dropdup_test) in
+                  let d4 := step c dr (OWhere (dropdup_test row_num)) in
                   let d5 := step c d4 (OSelect (passthrough all)) in
                   Some (mkY (y_pre Y ++ map SB (done d2) ++ [SW (b_where (cur d2)) (b_sel (cur d2)) subset row_num])
                             (set_last d5 new) names)
@@ -559,20 +559,20 @@ Proof.
 Qed.
 
 (** ROW_NUMBER stage, then WHERE row_num = 1, then SELECT the original columns: first occurrences per key *)
-Lemma holds_rownum all (p : row) n :
+Lemma holds_rownum row_num all (p : row) n :
   ~ In row_num all -> List.length p = List.length all ->
-  holds (all ++ [row_num]) (p ++ [VInt n]) dropdup_test = (n =? 1).
+  holds (all ++ [row_num]) (p ++ [VInt n]) (dropdup_test row_num) = (n =? 1).
 Proof.
   intros Hn Hl. unfold holds, dropdup_test. cbn [eval]. rewrite lookup_snoc by assumption.
   cbn [eval_bin val_cmp]. destruct (Z.compare_spec n 1) as [->| |]; cbn [cmp_tv]; [reflexivity| |];
     symmetry; apply Z.eqb_neq; lia.
 Qed.
 
-Lemma dropdup_frames b S subset :
+Lemma dropdup_frames row_num b S subset :
   GSimple b (cols S) -> wf_frame S -> NoDup (out_cols (b_sel b)) -> ~ In row_num (out_cols (b_sel b)) ->
   incl subset (out_cols (b_sel b)) ->
   let all := out_cols (b_sel b) in
-  spec_step (OSelect (passthrough all)) (spec_step (OWhere dropdup_test) (eval_window (b_where b) (b_sel b) subset row_num S))
+  spec_step (OSelect (passthrough all)) (spec_step (OWhere (dropdup_test row_num)) (eval_window (b_where b) (b_sel b) subset row_num S))
   = mkFrame all (dedup_on (key_of all subset) [] (rows (eval_block b S))).
 Proof.
   intros (Hs & Hi & Hd & Ho & Hl) Hwf Hnd Hrn Hsub all.
@@ -697,8 +697,7 @@ Section YProof.
         forallb (fun k => mem k cur) keys && forallb (agg_col_ok cur) aggs && nodupb (keys ++ map snd aggs)
     | XUnpivot ids vals var vl => nodupb (ids ++ [var; vl])
     | XDropDup subset =>
-        negb (mem row_num cur) && forallb (fun s => mem s cur) subset
-        && match subset with [] => false | _ => true end
+        forallb (fun s => mem s cur) subset && match subset with [] => false | _ => true end
     | XOrderFlags ks => op_ok c (y_d Y) (y_ics Y) (OOrderBy (flag_keys negb (fun asc => asc) ks))
     | _ => x_ok c (y_d Y) (y_ics Y) x
     end.
@@ -805,8 +804,7 @@ Section YProof.
                eval_y Y' input = spec_x (XDropDup subset) (eval_y Y input) /\ YInv Y' input.
   Proof.
     intros Hd Hk (HI & Hcs & Hwf) Hx. unfold y_ok in Hx.
-    apply andb_true_iff in Hx. destruct Hx as [Hx Hne].
-    apply andb_true_iff in Hx. destruct Hx as [Hrn Hsub].
+    apply andb_true_iff in Hx. destruct Hx as [Hsub Hne].
     set (W0 := eval_stages (y_pre Y) input) in *.
     unfold step_y. rewrite Hd.
     destruct (outer_pre_ok c k (y_d Y) (y_ics Y) W0 HI) as (He1 & HI1 & Hc1 & Hl1 & Hreach).
@@ -817,8 +815,8 @@ Section YProof.
     destruct subset as [|s0 subset']; [discriminate|]. set (subset := s0 :: subset') in *.
     set (all := cur_cols d1) in *.
     assert (Hnda : NoDup all) by (destruct HI1 as [(_&_&_&_&Hn) _]; exact Hn).
-    assert (Hrna : ~ In row_num all).
-    { rewrite Hc1. intro Hin. apply mem_In in Hin. rewrite Hin in Hrn. discriminate. }
+    set (row_num := fresh_name "row_num" all).
+    assert (Hrna : ~ In row_num all) by apply fresh_not_in.
     assert (Hsuba : incl subset all).
     { rewrite Hc1. intros s Hs. rewrite forallb_forall in Hsub. apply mem_In. apply Hsub. exact Hs. }
     rewrite (pre_init_idem c d1 Hl1).
@@ -828,9 +826,6 @@ Section YProof.
     assert (Hc2 : out_cols (b_sel (cur d2)) = all).
     { change (cur_cols d2 = all). subst d2. rewrite <- (pre_init_idem c d1 Hl1) at 1. apply cur_cols_pre. }
     rewrite (gsimple_plain _ _ HS).
-    replace (negb (mem row_num all)) with true
-      by (symmetry; apply negb_true_iff; destruct (mem row_num all) eqn:E; [apply mem_In in E; contradiction | reflexivity]).
-    cbn [andb].
     set (names := all ++ [row_num]).
     assert (Hndn : NoDup names) by (apply NoDup_app_snoc; assumption).
     set (W := eval_stages (y_pre Y ++ map SB (done d2) ++ [SW (b_where (cur d2)) (b_sel (cur d2)) subset row_num]) input).
@@ -844,13 +839,13 @@ Section YProof.
     pose proof (restart_inv names _ Hndn Hkind) as HIr.
     set (dr := restart names (new_kind c (OSelect []) (last d1))) in *.
     assert (Hcr : cur_cols dr = names) by (unfold dr, restart, cur_cols; cbn [cur pass_block b_sel]; apply out_cols_passthrough).
-    assert (Hhf4 : hf_ok c dr names (OWhere dropdup_test) = true).
+    assert (Hhf4 : hf_ok c dr names (OWhere (dropdup_test row_num)) = true).
     { apply hf_ok_where_vis. intros n Hn. simpl in Hn. destruct Hn as [<-|[]].
       rewrite Hcr. apply in_or_app. right. left. reflexivity. }
-    assert (Hok4 : op_ok c dr names (OWhere dropdup_test) = true) by reflexivity.
+    assert (Hok4 : op_ok c dr names (OWhere (dropdup_test row_num)) = true) by reflexivity.
     destruct (gstep_correct c Hcfg Hlim dr names W _ HcW HwW HIr Hok4 Hhf4) as [Ev4 HI4].
-    destruct (gstep_where_post c Hcfg dr names dropdup_test HIr) as ((_ & Hi4 & _) & Hc4).
-    set (d4 := step c dr (OWhere dropdup_test)) in *.
+    destruct (gstep_where_post c Hcfg dr names (dropdup_test row_num) HIr) as ((_ & Hi4 & _) & Hc4).
+    set (d4 := step c dr (OWhere (dropdup_test row_num))) in *.
     assert (Hin4 : forall n, In n all -> In n (cur_cols d4)).
     { intros n Hn. rewrite Hc4, Hcr. apply in_or_app. left. exact Hn. }
     assert (Hok5 : op_ok c d4 names (OSelect (passthrough all)) = true).
@@ -871,7 +866,7 @@ Section YProof.
       rewrite Ev5, Ev4. unfold dr. rewrite (eval_restart W names) by assumption.
       pose proof (cols_source d2 W0) as Hcsrc. rewrite Hcs in Hcsrc.
       rewrite HW. rewrite <- Hc2.
-      rewrite (dropdup_frames (cur d2) (source d2 W0) subset).
+      rewrite (dropdup_frames row_num (cur d2) (source d2 W0) subset).
       + fold W0. change (eval_block (cur d2) (source d2 W0)) with (eval_df d2 W0). rewrite He2, He1, Hc2.
         unfold spec_x. change (cols (eval_df (y_d Y) W0)) with (cur_cols (y_d Y)). rewrite <- Hc1. reflexivity.
       + rewrite Hcsrc. exact HS.
